@@ -762,6 +762,12 @@ func (c *c13Case) examine() ([]string, string) {
 		return c13ExBlock(string(c.Input))
 	case "grpc-trailers":
 		return c13ExTrailers(c.header())
+	case "json-dup-keys":
+		return c13Run(func(p internal.Printer) {
+			if _, err := checkNoDuplicateKeys("", json.NewDecoder(bytes.NewReader(c.Input))); err != nil {
+				p.Printf("%v", err)
+			}
+		})
 	case "binary-metadata":
 		return c13Run(func(p internal.Printer) { checkBinaryMetadata("metadata", c13ProtoHeaders(c.header()), p) })
 	case "wire":
